@@ -27,11 +27,12 @@ pub fn run_property(ctx: &Ctx) -> Option<Report> {
         }
         "C17" => {
             let mut r = Report::new(
-                "cases = (address-set structure, RNG script): every multiset of <= 6 addresses over the 15 membership combinations of {peer, live, dead, seed}, each under every scripted generator; \
-                 non-trivial = empty live set, or dead outnumber live, or empty seed set, or empty dead set (the division / shortcut corners); distinct = by (structure, script)",
+                "two sub-checks. (1) cases = (address-set structure, RNG script): every multiset of <= 6 addresses over the 15 membership combinations of {peer, live, dead, seed}, each under every scripted generator; \
+                 non-trivial = empty live set, or dead outnumber live, or empty seed set, or empty dead set (the division / shortcut corners); distinct = by (structure, script). (2) the real server on a scripted transport with 0..12 peers introduced by digests (some heartbeating), seeds incl. the server's own address: per gossip round at most 5 SYNs, all to known peers or seeds, never to itself, a seed reached when no peer is live; non-trivial = own address among the seeds or no live peer",
             );
             r.assume("addresses are distinct; sets need not be nested (live need not be a subset of peers)");
             select::run(ctx, &mut r);
+            srv::run_targets(ctx, &mut r);
             r
         }
         "C07" => {
@@ -72,6 +73,9 @@ pub fn run_property(ctx: &Ctx) -> Option<Report> {
             r.assume("every ChitchatId is used by one incarnation; restarts use a new generation id; honest nodes only");
             r.assume("the owner's local API is trusted to record the ledger (checked separately by C06/C04)");
             sim::run(ctx, &mut r, mon, quick, thorough);
+            if mon == Monitor::C12 {
+                sim::run_memory(ctx, &mut r);
+            }
             r
         }
         "C14" => {
@@ -157,7 +161,10 @@ pub fn replay_property(ctx: &Ctx, sub: &str, case: &serde_json::Value) -> SubRes
     match ctx.prop.as_str() {
         "C06" => kv::replay(ctx, sub, case, "C06"),
         "C15" => listen::replay(ctx, sub, case),
-        "C17" => select::replay(ctx, sub, case),
+        "C17" => match sub {
+            "server-round-targets" => srv::replay_targets(ctx, sub, case),
+            _ => select::replay(ctx, sub, case),
+        },
         "C07" => mtu::replay(ctx, sub, case),
         "C08" => wirecheck::replay(ctx, sub, case),
         "C14" => pairs::replay_c14(ctx, sub, case),
@@ -179,7 +186,10 @@ pub fn replay_property(ctx: &Ctx, sub: &str, case: &serde_json::Value) -> SubRes
         "C02" => sim::replay(ctx, sub, case, Monitor::C02),
         "C03" => sim::replay(ctx, sub, case, Monitor::C03),
         "C05" => sim::replay(ctx, sub, case, Monitor::C05),
-        "C12" => sim::replay(ctx, sub, case, Monitor::C12),
+        "C12" => match sub {
+            "removed-member-memory" => sim::replay_memory(ctx, sub, case),
+            _ => sim::replay(ctx, sub, case, Monitor::C12),
+        },
         "C13" => sim::replay(ctx, sub, case, Monitor::C13),
         "C16" => sim::replay(ctx, sub, case, Monitor::C16),
         _ => {
